@@ -72,7 +72,7 @@ _p('C05', 'proof',
 
 _p('C06', 'other',
    'MIXED: call-level clauses proved without bound, kernel-level clauses bounded (see units_proved_unbounded / units_bounded_standin and the two obligation counts in the evidence). Call-level contracts (loop-free, proved): apply_pre/apply_post/apply of damped Jacobi, SPAI-0, ILU(0)/ILU(k)/ILUT and Gauss-Seidel are exactly residual(rhs,A,x,tmp) from the incoming x followed by the documented M^-1 application and update. Kernel level (bounded units, listed in the evidence): Gauss-Seidel serial sweep, ILU triangular solve, SPAI-0 / ILU(0) constructors.',
-   'Not decided: (LU)_ij = a_ij on the pattern / exactness on tridiagonal matrices (needs exact division), ILU(k)/ILUP/ILUT fill bookkeeping, SPAI-1, Chebyshev coefficients.',
+   'ILU(0) constructor (bounded): every stored L / U / D value equals its term of the IKJ recurrence over uninterpreted arithmetic and updates for positions outside the pattern are discarded. Not decided: the product identity (LU)_ij = a_ij itself / exactness on tridiagonal matrices (needs exact division; follows from the recurrence the units pin), SPAI-1, that the Chebyshev coefficients realise the minimal polynomial.',
    TECH_BOUNDED,
    ['each sweep is x + M^-1 (f - A x) as a call sequence (proved)', 'kernels: see bounded units'],
    ['ILU factor exactness', 'SPAI-1', 'Chebyshev polynomial'],
@@ -88,10 +88,10 @@ _p('C07', 'other',
 
 _p('C08', 'other',
    'Bounded contract check of the sparse kernels (transpose, product/spgemm_saad, sum, scale, sort_row(s), diagonal, pointwise_matrix, CRS constructors, Gershgorin branch of spectral_radius ...): for ALL inputs up to the stated size (pattern and values symbolic, unsorted rows, duplicates, empty rows/columns, rectangular) the result is well-formed CRS and its dense view equals the defining formula; index-safety and frame obligations included. Units closed with inductive loop contracts are listed as proved.',
-   'Bounded stand-in: invariants over marker arrays / counting sorts need quantifiers CBMC cannot use here. Values at a commutative ring (int32) so that the dense definition is order independent. Not decided: Gershgorin bound vs true spectral radius (a theorem about the proved formula), power-method bound.',
+   'Bounded stand-in: invariants over marker arrays / counting sorts need quantifiers CBMC cannot use here. Values at a commutative ring (int32) so that the dense definition is order independent. Power-method branch of spectral_radius (bounded): the estimate is the Rayleigh sum of the last iteration over uninterpreted arithmetic. Not decided: Gershgorin bound vs true spectral radius (a theorem about the proved formula), that the Rayleigh quotient bounds the spectrum, the random start vector.',
    TECH_BOUNDED,
    ['kernels equal their dense definitions up to the bound', 'well-formed CRS output'],
-   ['Gershgorin / power-method bounds on the true spectrum', 'spgemm_rmerge if not listed'],
+   ['Gershgorin / power-method bounds on the true spectrum'],
    'DESIGN.md section 6 (C08)')
 
 _p('C09', 'other',
